@@ -541,7 +541,12 @@ fn judge_video(st: &ModelState, cfg: &CCfg, pts: f64, dts: Option<f64>, frame: &
             }
         }
         if let Some(last) = st.last_vtick {
-            if te.tick < last {
+            if st.last_vtick_tie && te.tick.saturating_add(1) >= last && te.tick <= last.saturating_add(1) {
+                // the previous accepted timestamp sits on a half-tick tie: its tick is known only to within one, so the order of
+                // a timestamp within one tick of it cannot be judged
+                either.get_or_insert("half_tick_tie".into());
+                contested.insert(VideoOrder);
+            } else if te.tick < last {
                 reject(&mut v, VideoOrder);
             } else if te.tick == last {
                 // same tick: not representable. f64-wise it may or may not be "strictly greater".
